@@ -1,0 +1,67 @@
+//go:build verif
+
+package sql
+
+// Contracts for govc (comment-only; compiled only with -tags verif). Property C14 (and C01).
+//@ spec import rqlite_random
+//
+//@ func isNow
+//@   pure
+//@   ensures [only-ident-or-string] result ==> (typeis(e, "*github.com/rqlite/sql.Ident") || typeis(e, "*github.com/rqlite/sql.StringLit"))
+// julianDayAsNumberLit only computes (floating point, outside the verified subset) and allocates
+// the literal it returns: trusted.
+//@ func julianDayAsNumberLit
+//@   trusted
+//@   noheap
+//@   ensures [number-literal] result != nil
+//
+// The injected clock and random source (time.Now / rand.Int64 in production) touch nothing of the
+// rewriter or the AST.
+//@ type Rewriter
+//@   purefunc nowFn, randFn
+//
+// Visit: what the rewriter does to one node. For a call node (name compared without regard to
+// case): RANDOM() outside ORDER BY becomes a number literal; RANDOMBLOB(n) with a literal n becomes
+// a blob literal; the time value of date/time/datetime/julianday/unixepoch (argument 0), strftime
+// (argument 1) and timediff (arguments 0 and 1) is replaced by a number literal when it is 'now' —
+// and also when it is left out, which SQLite takes to mean 'now'. Inside an ORDER BY term RANDOM()
+// is left alone, and the flag that says so is set exactly for the duration of that term. Every
+// other node is returned as it is.
+//@ func (*Rewriter) Visit
+//@   requires [recv] rw != nil
+//@   ghost var isCall bool = typeis(node, "*github.com/rqlite/sql.Call")
+//@   ghost var name0 string = lower(as(node, "*github.com/rqlite/sql.Call").Name.Name)
+//@   ghost var nargs0 int = len(as(node, "*github.com/rqlite/sql.Call").Args)
+//@   ghost var ob0 bool = rw.orderedBy
+//@   ghost var now1 bool = false
+//@   ghost var now2 bool = false
+//@   ghost var atoiOK bool = false
+//@   ghost update @isNow#1: now1 = result
+//@   ghost update @isNow#2: now1 = result
+//@   ghost update @isNow#3: now1 = result
+//@   ghost update @isNow#4: now2 = result
+//@   ghost update @strconv.Atoi: atoiOK = (result1 == nil)
+//@   assert @isNow#1: [time-value-is-argument-0] arg0 == n.Args[0]
+//@   assert @isNow#2: [strftime-time-value-is-argument-1] arg0 == n.Args[1]
+//@   assert @isNow#3: [timediff-first] arg0 == n.Args[0]
+//@   assert @isNow#4: [timediff-second] arg0 == n.Args[1]
+//@   ensures [visitor-kept] result2 == nil && result0 == rw
+//@   ensures [random-replaced] (isCall && rw.RewriteRand && !ob0 && name0 == "random") ==> (typeis(result1, "*github.com/rqlite/sql.NumberLit") && rw.modified)
+//@   ensures [random-in-order-by-kept] (isCall && ob0 && (name0 == "random" || name0 == "randomblob")) ==> result1 == node
+//@   ensures [randomblob-literal-replaced] (isCall && rw.RewriteRand && !ob0 && name0 == "randomblob" && nargs0 == 1 && typeis(as(node, "*github.com/rqlite/sql.Call").Args[0], "*github.com/rqlite/sql.NumberLit") && atoiOK) ==> (typeis(result1, "*github.com/rqlite/sql.BlobLit") && rw.modified)
+//@   ensures [explicit-now-made-concrete] (isCall && rw.RewriteTime && nargs0 >= 1 && now1 && (name0 == "date" || name0 == "time" || name0 == "datetime" || name0 == "julianday" || name0 == "unixepoch")) ==> (result1 == node && typeis(as(node, "*github.com/rqlite/sql.Call").Args[0], "*github.com/rqlite/sql.NumberLit") && rw.modified)
+//@   ensures [implicit-now-made-concrete] (isCall && rw.RewriteTime && nargs0 == 0 && (name0 == "date" || name0 == "time" || name0 == "datetime" || name0 == "julianday" || name0 == "unixepoch")) ==> (result1 == node && len(as(node, "*github.com/rqlite/sql.Call").Args) >= 1 && typeis(as(node, "*github.com/rqlite/sql.Call").Args[0], "*github.com/rqlite/sql.NumberLit"))
+//@   ensures [strftime-now-made-concrete] (isCall && rw.RewriteTime && name0 == "strftime" && nargs0 >= 2 && now1) ==> (result1 == node && typeis(as(node, "*github.com/rqlite/sql.Call").Args[1], "*github.com/rqlite/sql.NumberLit") && rw.modified)
+//@   ensures [strftime-implicit-now-made-concrete] (isCall && rw.RewriteTime && name0 == "strftime" && nargs0 == 1) ==> (len(as(node, "*github.com/rqlite/sql.Call").Args) >= 2 && typeis(as(node, "*github.com/rqlite/sql.Call").Args[1], "*github.com/rqlite/sql.NumberLit"))
+//@   ensures [timediff-now-made-concrete] (isCall && rw.RewriteTime && name0 == "timediff" && nargs0 >= 2) ==> ((now1 ==> typeis(as(node, "*github.com/rqlite/sql.Call").Args[0], "*github.com/rqlite/sql.NumberLit")) && (now2 ==> typeis(as(node, "*github.com/rqlite/sql.Call").Args[1], "*github.com/rqlite/sql.NumberLit")))
+//@   ensures [order-by-flag-set] typeis(node, "*github.com/rqlite/sql.OrderingTerm") ==> (rw.orderedBy && result1 == node)
+//@   ensures [order-by-flag-kept] !typeis(node, "*github.com/rqlite/sql.OrderingTerm") ==> rw.orderedBy == ob0
+//@   ensures [other-nodes-untouched] (!isCall) ==> (result1 == node && rw.modified == old(rw.modified))
+//@   ensures [switches-kept] rw.RewriteRand == old(rw.RewriteRand) && rw.RewriteTime == old(rw.RewriteTime)
+//
+// VisitEnd: leaving an ORDER BY term clears the flag; nothing else changes; the node is kept.
+//@ func (*Rewriter) VisitEnd
+//@   requires [recv] rw != nil
+//@   ensures [order-by-flag-cleared] typeis(node, "*github.com/rqlite/sql.OrderingTerm") ==> !rw.orderedBy
+//@   ensures [order-by-flag-kept-otherwise] !typeis(node, "*github.com/rqlite/sql.OrderingTerm") ==> rw.orderedBy == old(rw.orderedBy)
+//@   ensures [node-kept] result0 == node && result1 == nil
